@@ -267,7 +267,9 @@ def regroup_vectorized(srccat, eps, far=None, dist=norm_dist):
             rafar = far / np.cos(np.radians(rec.dec))
             group_recs = np.take(srccat, group, mode='clip')
             group_recs = group_recs[abs(rec.ra - group_recs.ra) <= rafar]
-            if len(group_recs) and dist(rec, group_recs).min() < eps:
+            # (np.min: dist() returns the scalar 0 when every candidate is
+            #  identical to rec, e.g. a duplicated catalogue row)
+            if len(group_recs) and np.min(dist(rec, group_recs)) < eps:
                 group.append(idx)
                 break
         else:
